@@ -526,10 +526,15 @@ def c15_units():
     return [Negotiate(), InitVersions()]      # the fallback and the default version it falls back to
 
 
-def units(tier):
+def _own_units(tier):
     from . import c10
     lt = c10.LoginTables()
     # "followed by a login start": what goes on the wire after the handshake carries the login-start id the specification
     # gives for the chosen version (0x00, or 0x01 while the plugin packets sat at 0x00: protocols 385..390)
     lt.prop, lt.name = 'C09', 'C09.login-start.wire-id'
     return [InitVersions(), Negotiate(), ConnectShape(), StatusQuery(), lt]
+
+
+def units(tier):
+    from .deps import dependency_units
+    return _own_units(tier) + dependency_units('C09')
